@@ -158,7 +158,9 @@ def run_once(sc, src, dst, fl, ids, k=1, extra_env=None, extra_args=(), select=N
     refused = 1 if ("deletion threshold exceeded" in (rr["err"] + rr["out"]).lower() and rr["rc"] not in (0, None)) else 0
     # universe extras: every path that exists afterwards
     extra = sorted(set(ids.path(rel) for rel in after if rel not in SY_META) | set(ids.path(rel) for rel in ssnap))
-    case = "E %s %d %s %s %s" % (flags_str(fl), now_of(k), ",".join(srcs) or "-", ",".join(dsts) or "-", ",".join(extra) or "-")
+    kept_rels = set(rel for _k, rel, _s in kept)
+    keepout = [ids.path(rel) for _k, rel, _s in slist if rel not in kept_rels]      # scanned, but not part of this run's transfers
+    case = "E %s %d %s %s %s %s" % (flags_str(fl), now_of(k), ",".join(srcs) or "-", ",".join(dsts) or "-", ",".join(extra) or "-", ",".join(keepout) or "-")
     obs = "refused=%d exit=%s nerr=%d evs=%s dst=%s" % (refused, rr["rc"], nerr, ",".join(evs) or "-", dst_line(after, ids, run_start, k))
     raw = {"rc": rr["rc"], "stderr": rr["err"][-400:], "badlines": badlines, "before": dsnap, "after": after, "src": ssnap, "events": evs,
            "timeout": rr["timeout"], "stdout_tail": rr["out"][-300:], "kept": [rel for _, rel, _ in kept],
